@@ -47,6 +47,17 @@ def tree_snapshot(ws):
         pgs = getattr(ent, "property_groups", None)
         if pgs:
             rec["property_groups"] = {pg.name: sorted(str(u) for u in (pg.properties or [])) for pg in pgs}
+        if hasattr(ent, "get_data_list") and type(ent).__name__.startswith("Concatenated"):
+            # data of a hole in a drillhole group are loaded on demand: list them by name with their values
+            logs = {}
+            for nm in ent.get_data_list():
+                dd = ent.get_data(nm)
+                if dd:
+                    try:
+                        logs[nm] = _norm(dd[0].values)
+                    except Exception as e:  # noqa: BLE001
+                        logs[nm] = f"<unreadable {type(e).__name__}>"
+            rec["logs"] = logs
         out[key] = rec
         for ch in getattr(ent, "children", []) or []:
             if hasattr(ch, "uid") and type(ch).__name__ != "PropertyGroup":
